@@ -41,16 +41,20 @@ int run_cycle(const Args& a) {
             rep.violation("cycle:storage-of-earlier-cycle-visible", "list_storages is not empty right after init()", JObj().num("cycle", cy).num("listed", lst.size()).done());
         }
         if (yk::find_storage("cyc") == status::OK) { rep.violation("cycle:storage-of-earlier-cycle-visible", "storage of the previous cycle still found", JObj().num("cycle", cy).done()); }
-        {
+        auto capacity_test = [&]() {
             std::vector<Token> toks;
             Token t{};
             while (toks.size() < YAKUSHIMA_MAX_PARALLEL_SESSIONS + 2U && yk::enter(t) == status::OK) { toks.push_back(t); }
             if (toks.size() != YAKUSHIMA_MAX_PARALLEL_SESSIONS) {
-                rep.violation("cycle:session-slots-not-all-free", "number of sessions that can be opened after init() differs from the capacity",
+                rep.violation("cycle:session-slots-not-all-free", "number of sessions that can be opened differs from the capacity although no session is open",
                               JObj().num("cycle", cy).num("opened", toks.size()).num("capacity", YAKUSHIMA_MAX_PARALLEL_SESSIONS).done());
             }
             for (auto tk : toks) { yk::leave(tk); }
-        }
+        };
+        // entering and leaving every slot would repair a slot left in a bad state by the previous cycle, so the
+        // capacity test runs before the measurement only in every other cycle
+        bool capacity_first = cy % 2 == 0;
+        if (capacity_first) { capacity_test(); }
         // ---- work + model
         status cs = yk::create_storage("cyc");
         if (cs != status::OK) { rep.violation("cycle:create-storage", "create_storage failed in a fresh cycle", JObj().str("got", st(cs)).num("cycle", cy).done()); }
@@ -102,6 +106,7 @@ int run_cycle(const Args& a) {
         (void) c1;
         // ---- model equality
         coherence_check(rep, "cyc", model, true, nullptr);
+        if (!capacity_first) { capacity_test(); }
         if (do_destroy) {
             status d = yk::destroy();
             rep.count("destroy_calls");
@@ -117,10 +122,17 @@ int run_cycle(const Args& a) {
             d2.leave();
             if (p != status::OK || gg != status::OK || g.second != 1) { rep.violation("cycle:unusable-after-destroy", "put/get after destroy() failed", JObj().str("put", st(p)).str("get", st(gg)).done()); }
         }
-        bool leave_open = r.chance(1, 3);
+        bool leave_open = r.chance(1, 2);
         if (leave_open) {
-            Token t{};
-            if (yk::enter(t) == status::OK) { rep.count("cycles_ending_with_open_session"); }
+            // leave a session open in a slot that is not the first one (the next cycle's workers use the low slots)
+            std::vector<Token> toks;
+            std::size_t k = r.range(1, 12);
+            for (std::size_t i = 0; i < k; ++i) {
+                Token t{};
+                if (yk::enter(t) == status::OK) { toks.push_back(t); }
+            }
+            for (std::size_t i = 0; i + 1 < toks.size(); ++i) { yk::leave(toks[i]); }
+            if (!toks.empty()) { rep.count("cycles_ending_with_open_session"); }
         }
         yk::fin();
         o.epoch_ticks = ctl::count_of(ctl::point::EPOCH_LOOP) - et0;
